@@ -2,6 +2,7 @@ package vrt
 
 import (
 	"net"
+	"sort"
 	"unsafe"
 	"os"
 
@@ -244,4 +245,55 @@ func SyscallWrite(trap, a1, a2, a3 uintptr) (r1, r2 uintptr, err unix.Errno) {
 		}
 	}
 	return unix.Syscall(trap, a1, a2, a3)
+}
+
+// PtrOrder gives pointer-typed map keys a deterministic rank (set by the harness: a session by its descriptor, a
+// stream by its id, ...). Keys without a rank keep Go's order among themselves.
+var PtrOrder func(p interface{}) (uint64, bool)
+
+// SortedKeys returns the keys of a map in a deterministic order (rule A10).
+func SortedKeys[K comparable, V any](m map[K]V) []K {
+	keys := make([]K, 0, len(m))
+	for k := range m {
+		keys = append(keys, k)
+	}
+	rank := func(k K) (uint64, string, int) {
+		switch v := any(k).(type) {
+		case int:
+			return uint64(v), "", 0
+		case int32:
+			return uint64(v), "", 0
+		case int64:
+			return uint64(v), "", 0
+		case uint:
+			return uint64(v), "", 0
+		case uint32:
+			return uint64(v), "", 0
+		case uint64:
+			return v, "", 0
+		case string:
+			return 0, v, 1
+		}
+		if PtrOrder != nil {
+			if r, ok := PtrOrder(any(k)); ok {
+				return r, "", 0
+			}
+		}
+		return 0, "", 2
+	}
+	sort.SliceStable(keys, func(i, j int) bool {
+		a, as, ak := rank(keys[i])
+		b, bs, bk := rank(keys[j])
+		if ak != bk {
+			return ak < bk
+		}
+		if ak == 1 {
+			return as < bs
+		}
+		if ak == 2 {
+			return false
+		}
+		return a < b
+	})
+	return keys
 }
